@@ -534,6 +534,15 @@ def _close(a, b, rtol=MTOL, atol=1e-7):
     return bool(np.all(np.abs(a - b) <= atol + rtol * np.abs(b)))
 
 
+def _worst(v, w, rtol=MTOL, atol=1e-7):
+    """Index of the entry that fails `_close` by the largest margin."""
+    v = np.asarray(v, dtype=np.float64)
+    w = np.asarray(w, dtype=np.float64)
+    if v.shape != w.shape or v.ndim != 1:
+        return -1
+    return int(np.argmax(np.abs(v - w) - atol - rtol * np.abs(w)))
+
+
 def check_network(ctx, GeoGrid, GeoNetwork, lat, lon, A, directed, wtype,
                   cid):
     n = len(lat)
@@ -652,7 +661,7 @@ def check_network(ctx, GeoGrid, GeoNetwork, lat, lon, A, directed, wtype,
         if _close(v, w):
             continue
         v = np.asarray(v, dtype=np.float64)
-        i = int(np.argmax(np.abs(v - w))) if v.shape == w.shape else -1
+        i = _worst(v, w)
         if meth.split("/")[0] in undirected_family and directed:
             # "does not use directionality information": must equal the
             # value on the undirected version of the network
@@ -765,7 +774,7 @@ def check_spatial_network(ctx, Grid, SpatialNetwork, X, A, directed, cid):
         if _close(v, w, MTOL, 1e-7 * max(1.0, D.max())):
             continue
         v = np.asarray(v, dtype=np.float64)
-        i = int(np.argmax(np.abs(v - w))) if v.shape == w.shape else -1
+        i = _worst(v, w, MTOL, 1e-7 * max(1.0, D.max()))
         if meth == "average_link_distance" and directed:
             cls = "directed-reciprocal" if i >= 0 and \
                 (A[i] * A[:, i]).sum() > 0 else "directed"
